@@ -64,8 +64,12 @@ class Report:
             self.assumptions.append(s)
 
     def check_floors(self):
+        per_rule_findings = {}
+        for f in self.findings:
+            per_rule_findings[f.rule] = per_rule_findings.get(f.rule, 0) + 1
         for rule, minimum in self.floors.items():
-            n = self.rule_counts.get(rule, 0)
+            # a site that was analysed and found violating still counts as analysed
+            n = self.rule_counts.get(rule, 0) + per_rule_findings.get(rule, 0)
             if n < minimum:
                 self.fail(
                     "FLOOR rule=%s instances=%d floor=%d (the rule matched fewer sites than were "
